@@ -74,6 +74,11 @@ def gen_sql_case(rng, tier, force_merge=False):
     pk = force_merge or rng.random() < 0.5
     engine = "disk" if force_merge else rng.choice(["mem", "disk", "disk"])
     steps = [{"sql": f"create table t(a int {'primary key' if pk else ''}, b int, c int)"}]
+    comp = None
+    if pk and not force_merge and rng.random() < 0.35:
+        # a composite key, declared in or against the column order (the storage sorts by the key columns in COLUMN order)
+        comp = rng.choice([(0, 1), (1, 0), (0, 2), (2, 0), (1, 2), (2, 1)])
+        steps = [{"sql": f"create table t(a int, b int, c int, primary key({'abc'[comp[0]]}, {'abc'[comp[1]]}))"}]
     rows, used = [], set()
     n_ins = rng.choice([7, 8, 9, 10, 12]) if force_merge else (rng.choice([1, 2, 3, 4, 7, 8, 9]) if pk else rng.randint(1, 4))
     for _ in range(n_ins):
@@ -86,7 +91,10 @@ def gen_sql_case(rng, tier, force_merge=False):
                 used.add(a)
             elif rng.random() < 0.15:
                 a = None
-            batch.append([a, None if rng.random() < 0.2 else rng.randint(0, 3), rng.randint(0, 9)])
+            row = [a, None if rng.random() < 0.2 else rng.randint(0, 3), rng.randint(0, 9)]
+            if comp:
+                row = [rng.randint(0, 6) if row[0] is None else row[0] % 7, rng.randint(0, 3), rng.randint(0, 9)]
+            batch.append(row)
         rows += batch
         steps.append({"sql": "insert into t values " + ", ".join("(" + ", ".join("null" if v is None else str(v) for v in r) + ")" for r in batch)})
     deleted = False
@@ -103,6 +111,8 @@ def gen_sql_case(rng, tier, force_merge=False):
     ks = [(c, rng.random() < 0.4) for c in cols]
     if force_merge or rng.random() < 0.35:
         ks = [(0, False)]        # ORDER BY the (primary) key: the storage-order path
+    if comp and rng.random() < 0.7:
+        ks = rng.choice([[(comp[0], False)], [(comp[0], False), (comp[1], False)], [(min(comp), False)], [(min(comp), False), (max(comp), False)]])
     order = ", ".join("abc"[c] + (" desc" if d else "") for c, d in ks)
     limit = rng.choice([None, None, 0, 1, 2, len(rows), len(rows) + 1])
     offset = rng.choice([None, None, 0, 1, 2, len(rows), len(rows) + 1])
